@@ -61,6 +61,8 @@ def snapshot(v, memo=None):
         return memo[id(v)]
     if isinstance(v, Inst):
         c = Inst(v.cls, module=v.module)
+        if getattr(v, "constructed", False):
+            c.constructed = True
         memo[id(v)] = c
         c.fields = {k: snapshot(x, memo) for k, x in v.fields.items()}
         return c
@@ -144,6 +146,8 @@ class Verifier(object):
         if case_range is not None:
             cases = cases[case_range[0]:case_range[1]]
         try:
+            from .calls import check_decorators
+            check_decorators(node, qualname)
             for ci, case in enumerate(cases):
                 m = Machine(self.repo, self.registry, self.externals)
 
